@@ -13,10 +13,18 @@ const Base int64 = 1_699_999_200 // multiple of 3600
 
 var clock atomic.Int64 // model seconds + 1 (0 = real time)
 
+// frac is a constant sub-second part (nanoseconds) added to every model second: with it the virtual "now" is never a whole
+// second, as in production, while creation stamps (truncated to the creation-date precision) still are. Differences between two
+// readings of the clock stay whole seconds.
+var frac atomic.Int64
+
+// SetFraction sets the sub-second part of the virtual clock (0 <= d < 1s).
+func SetFraction(d time.Duration) { frac.Store(int64(d)) }
+
 // Now replaces time.Now in instrumented packages.
 func Now() time.Time {
 	if v := clock.Load(); v != 0 {
-		return time.Unix(Base+v-1, 0)
+		return time.Unix(Base+v-1, frac.Load())
 	}
 	return time.Now()
 }
